@@ -166,8 +166,14 @@ func scanNTTSched(c *core.Ctx) []ob {
 		callees := func(o *types.Func) []*types.Func {
 			var r []*types.Func
 			ast.Inspect(decls[o].Body, func(x ast.Node) bool {
-				if call, ok := x.(*ast.CallExpr); ok {
-					if g := calleeFunc(info, call); g != nil && decls[funcOrigin(g)] != nil {
+				switch v := x.(type) {
+				case *ast.CallExpr:
+					if g := calleeFunc(info, v); g != nil && decls[funcOrigin(g)] != nil {
+						r = append(r, funcOrigin(g))
+					}
+				case *ast.Ident:
+					// a function mentioned by name (kept in a local, passed on) may be called
+					if g, ok := info.Uses[v].(*types.Func); ok && decls[funcOrigin(g)] != nil {
 						r = append(r, funcOrigin(g))
 					}
 				}
